@@ -475,4 +475,11 @@ def RA_adjacency_container(ctx):
     R3_dense_index(ctx)
 
 
-RULES = [R1_R2_dfs, R2_passes, R3_largest, R_graph_roles, R5_adjacency, RA_adjacency_container]
+def RB_counts(ctx):
+    """the adjacency tables are sized by the scanned vertex count: a vertex without a slot has its edges dropped silently and the
+    components fall apart (shared with C15.R3: row counters and readers)"""
+    from props.C15 import R3_counts_and_readers
+    R3_counts_and_readers(ctx)
+
+
+RULES = [R1_R2_dfs, R2_passes, R3_largest, R_graph_roles, R5_adjacency, RA_adjacency_container, RB_counts]
